@@ -576,10 +576,10 @@ class BradleyTerryFull:
         # Possible Final Result
         final_result = processed_result
 
-        if limit_sigma is not None:
-            self.limit_sigma = limit_sigma
+        if limit_sigma is None:
+            limit_sigma = self.limit_sigma
 
-        if self.limit_sigma:
+        if limit_sigma:
             final_result = []
 
             # Reuse processed_result
